@@ -72,6 +72,8 @@ def make_obj(spec):
             return neg * int(math.floor(sum(_safe(v) * s * (1 if i % 2 == 0 else -1) for i, v in enumerate(x))))
     else:
         raise ValueError(kind)
+    if spec.get("float"):        # integral floats (incl. -0.0): comparisons stay exact
+        return lambda x: float(f(x))
     return f
 
 
@@ -91,6 +93,8 @@ def gen_obj(rng, d):
         spec["scale"] = rng.choice([1, 2, 5])
     else:
         spec["scale"] = rng.choice([1, 3])
+    if rng.random() < 0.2:
+        spec["float"] = True
     return spec
 
 
@@ -593,7 +597,7 @@ def _corpus():
     return out
 
 
-QUICK = {"de": 220, "pso": 220, "nm": 320, "bayes": 90, "powell": 70, "bfgs": 100, "lbfgs": 100}
+QUICK = {"de": 160, "pso": 160, "nm": 240, "bayes": 60, "powell": 60, "bfgs": 80, "lbfgs": 80}
 THOROUGH = {"de": 4500, "pso": 4500, "nm": 7500, "bayes": 1200, "powell": 1200, "bfgs": 2000, "lbfgs": 2000}
 
 
@@ -609,19 +613,13 @@ def run_part(ctx: Ctx):
     cases = []
     open_ids = {f.get("id") for f in ctx.open_findings()}
     for name, spec, finding in _corpus():
-        if finding:
-            # witness of a reported defect (crash): while it still reproduces it is a KNOWN-FINDING if an open entry
-            # with this id exists in known_findings.json, otherwise it is only counted (decision pending with the
-            # coordinator); once it no longer reproduces it is an ordinary corpus case
+        if finding and finding in open_ids:
+            # witness of a defect that is listed as an OPEN known finding: while it still reproduces it is reported as
+            # KNOWN-FINDING; otherwise (fixed, or not listed) it is an ordinary corpus case judged by the oracle
             o = execute(spec)
             if o["status"] == "exc":
                 ctx.evaluations += 1
-                what = f"{name}: {spec['solver']} raises {o['exc'][0]}: {o['exc'][1]}"
-                if finding in open_ids:
-                    ctx.known_hit(finding, what)
-                else:
-                    ctx.count("b_reported_defect_still_reproduces", finding)
-                    ctx.notes.append(f"C19-B reported defect (no known_findings entry yet, not judged): {what}")
+                ctx.known_hit(finding, f"{name}: {spec['solver']} raises {o['exc'][0]}: {o['exc'][1]}")
                 continue
         cases.append((name, spec))
     for solver in GROUP1 + GROUP2:
